@@ -21,6 +21,7 @@ mod c08;
 mod c11;
 mod c07;
 mod c13;
+mod c09;
 
 use std::path::PathBuf;
 
@@ -90,6 +91,7 @@ fn main() {
         "c11" => c11::run(&args),
         "c07" => c07::run(&args),
         "c13" => c13::run(&args),
+        "c09" => c09::run(&args),
         "parse" => c07::parse_command(&args.extra[0]),
         "c06" => c06::run(&args),
         "c16" => c16::run(&args),
